@@ -294,7 +294,7 @@ Qed.
 Theorem checkers_accept_model r stored local es :
   let c := model_case r stored local es in
   check_C01 c = [] /\ check_C04 c = [] /\ check_C06 c = [] /\ check_C08 c = []
-  /\ check_C09 c = [] /\ check_C11 c = [] /\ check_C14conn c = [].
+  /\ check_C09 c = [] /\ check_C11 c = [] /\ check_C14conn c = [] /\ check_C10conn c = [].
 Proof.
   intros c.
   assert (K : forall lo hi, check_conn lo hi c = []).
@@ -302,6 +302,6 @@ Proof.
     unfold viol_in. rewrite (viol_codes_nil _ (model_case_monitor_clean r stored local es)). reflexivity. }
   assert (D : c06_data false [] [] (cc_events c) (cc_obs c) = []).
   { subst c. unfold model_case. cbn [cc_events cc_obs]. apply c06_model_ok. }
-  unfold check_C01, check_C04, check_C06, check_C08, check_C09, check_C11, check_C14conn.
+  unfold check_C01, check_C04, check_C06, check_C08, check_C09, check_C11, check_C14conn, check_C10conn.
   rewrite D, !K. repeat split; reflexivity.
 Qed.
